@@ -48,7 +48,7 @@ func c15scenario(c c15cfg) *explore.Scenario {
 			if err != nil {
 				panic(err)
 			}
-			if c.setter != "" {
+			if c.setter != "" && c.setter != "close" {
 				zzvsched.GoNamed("setter", func() {
 					setStart = zzvsched.Elapsed()
 					if c.setter == "rate" {
@@ -83,6 +83,10 @@ func c15scenario(c c15cfg) *explore.Scenario {
 				fwdAtHandoff = append(fwdAtHandoff, len(rec.Got))
 				sentAt = append(sentAt, zzvsched.Elapsed())
 				vnet.ZZPush(f, vnet.ZZUDPChunk("10.0.0.1:1", fmt.Sprintf("10.0.0.2:%d", 1000+i), p))
+			}
+			if c.setter == "close" {
+				// Close right behind the last arrival: the loop may still be forwarding
+				_ = f.Close()
 			}
 			zzvsched.WaitIdle()
 			queued = vnet.ZZTBFQueued(f)
@@ -133,12 +137,12 @@ func c15scenario(c c15cfg) *explore.Scenario {
 					// the change had returned before the first datagram of the interval was even
 					// handed to the filter (its refill-and-drain step is then entirely after it)
 					r, b := c.rate, c.burst
-					if c.setter != "" && setEnd >= 0 && setEnd < sentAt[idx[i]] {
+					if c.setter != "" && c.setter != "close" && setEnd >= 0 && setEnd < sentAt[idx[i]] {
 						r, b = rate2, burst2
 					}
 					allowed := float64(b) + float64(r)/8*(tj-ti).Seconds()
 					if float64(sum) > allowed+1e-6 {
-						return out, &explore.Violation{Sig: "C15 envelope-exceeded" + map[bool]string{true: " after-reconfiguration", false: ""}[c.setter != ""], Msg: pre + fmt.Sprintf("%d bytes were forwarded in the %v between %v and %v; burst + rate x interval allows %.0f", sum, tj-ti, ti, tj, allowed)}
+						return out, &explore.Violation{Sig: "C15 envelope-exceeded" + map[bool]string{true: " after-reconfiguration", false: ""}[c.setter != "" && c.setter != "close"], Msg: pre + fmt.Sprintf("%d bytes were forwarded in the %v between %v and %v; burst + rate x interval allows %.0f", sum, tj-ti, ti, tj, allowed)}
 					}
 				}
 			}
@@ -237,7 +241,7 @@ func c15long(rate, burst int, gap time.Duration, size, n int) *explore.Scenario 
 }
 
 func init() {
-	register(&Check{ID: "C15",
+	register(&Check{ID: "C15", YieldOnRelease: true,
 		Scenarios: func(tier string) []*explore.Scenario {
 			var out []*explore.Scenario
 			n := 3
@@ -252,6 +256,7 @@ func init() {
 					out = append(out, c15scenario(c15cfg{rate: r, burst: b, queue: 50000, n: n - 1, setter: "rate", bound: 1}))
 					out = append(out, c15scenario(c15cfg{rate: r, burst: b, queue: 50000, n: n - 1, setter: "burst", bound: 1}))
 					out = append(out, c15scenario(c15cfg{rate: r, burst: b, queue: 50000, n: n - 1, setter: "burst-down-up", bound: 1}))
+					out = append(out, c15scenario(c15cfg{rate: r, burst: b, queue: 50000, n: n - 1, setter: "close", bound: 2}))
 				}
 			}
 			// long regular streams: gaps that give a fractional per-arrival credit in every direction
@@ -269,7 +274,7 @@ func init() {
 			}
 			return out
 		},
-		Rule: "rates {8 kbit/s, 1 Mbit/s} x bursts {1000, 8000 B} x queue sizes {2000, 50000 B} x every arrival script of 3 (thorough 4) datagrams over gaps {0,1ms,99ms,101ms,1s} and sizes {0,1,B/2,B,B+1}, optionally with a concurrent Set(rate/4) or Set(burst/4) placed at every scheduling point; every pair of forwarded datagrams bounds an interval for which the byte count is compared with burst + rate x length",
+		Rule: "rates {8 kbit/s, 1 Mbit/s} x bursts {1000, 8000 B} x queue sizes {2000, 50000 B} x every arrival script of 3 (thorough 4) datagrams over gaps {0,1ms,99ms,101ms,1s} and sizes {0,1,B/2,B,B+1}, optionally with a concurrent Set(rate/4) or Set(burst/4) placed at every scheduling point, or with Close called right behind the last arrival while the loop may still be forwarding; every pair of forwarded datagrams bounds an interval for which the byte count is compared with burst + rate x length",
 		Assumptions: []string{"across a reconfiguration the larger rate/burst applies unless the change completed before the interval began (most lenient sound reading)",
 			"a discard counts as 'queue full' when queued bytes + packet length reach the configured queue size"}})
 }
